@@ -8,7 +8,11 @@
 (* the real AggregationPrepCache after the call).  Each event must be the  *)
 (* step RecursionCache (the rules Recursion.tla is built from) takes.      *)
 (*   key = preprocessed commitment an uncached run of the same call gives  *)
-(*         (circuit content + packing + blowup), cnt = the four counters.  *)
+(*         (circuit content + packing + blowup), cnt = the four counters   *)
+(*         READ OFF THE CIRCUIT by the cfg(p3r_verif) hook in              *)
+(*         prove_aggregation_layer (not through the fingerprint function), *)
+(*         fp = the fingerprint the code computed, slot_before / slot_cnt  *)
+(*         = the slot's fingerprint before / after the call.               *)
 (* `stale` collects the events where a slot prepared for another key was   *)
 (* used; under Policy = "code" that is allowed by the trace spec (it is    *)
 (* what the code does - the finding is raised by the driver's verdict      *)
@@ -38,6 +42,11 @@ AggEv ==
     /\ IsEvent("agg")
     /\ LET e == Rec[l] sl == aslot[e.slot] IN
        /\ e.obs = (IF AggHits(sl, e.key, e.cnt) THEN "hit" ELSE IF sl.filled THEN "recomputed" ELSE "filled")
+       \* the fingerprint the code computed for this circuit (hook event at the cache decision) is the four size counters
+       \* read off the circuit itself: witness_count, public_flat_len, private_flat_len, ops.len()
+       /\ e.fp = e.cnt
+       \* the fingerprint the offered slot held at the decision is the one the model's slot holds
+       /\ e.slot_before = (IF sl.filled THEN sl.cnt ELSE "none")
        \* the fingerprint read back from the real slot after the call is the one the model's slot now holds
        /\ AggSlotAfter(sl, e.key, e.cnt).cnt = e.slot_cnt
        /\ aslot' = [aslot EXCEPT ![e.slot] = AggSlotAfter(sl, e.key, e.cnt)]
